@@ -27,6 +27,10 @@ struct Case {
     params: Params,
     /// which crash images get the (expensive) full read-surface comparison: every `stride`-th
     surface_stride: u8,
+    /// after the restart OTHER streams write first: a session stream of this many KiB is appended
+    /// to the log before the continuation touches any thread (0 = none)
+    #[serde(default)]
+    noise_kb: u16,
 }
 
 fn weights() -> OpWeights {
@@ -53,9 +57,38 @@ fn case_strategy() -> BoxedStrategy<Case> {
         ),
         params_strategy(),
         2u8..6,
+        noise_strategy(),
     )
-        .prop_map(|(ops, cont, params, surface_stride)| Case { ops, cont, params, surface_stride })
+        .prop_map(|(ops, cont, params, surface_stride, noise_kb)| Case { ops, cont, params, surface_stride, noise_kb })
         .boxed()
+}
+
+fn noise_strategy() -> BoxedStrategy<u16> {
+    prop_oneof![3 => Just(0u16), 2 => 1u16..400, 2 => 1000u16..1400].boxed()
+}
+
+/// A session that runs right after the restart, before any thread is touched: `kb` KiB of output
+/// frames on a fresh session stream, appended through the recovered log object.
+fn append_noise_session(log: &rip_log::EventLog, kb: u16, tag: usize) {
+    if kb == 0 {
+        return;
+    }
+    let sid = format!("noise-{tag}");
+    let chunk = "n".repeat(32 * 1024);
+    let mut seq = 0u64;
+    let mut push = |kind: rip_kernel::EventKind| {
+        let ev = rip_kernel::Event { id: format!("{sid}-{seq}"), session_id: sid.clone(), timestamp_ms: 0, seq, kind };
+        let _ = log.append(&ev);
+        seq += 1;
+    };
+    push(rip_kernel::EventKind::SessionStarted { input: "noise".to_string() });
+    let mut left = kb as usize * 1024;
+    while left > 0 {
+        let n = left.min(chunk.len());
+        push(rip_kernel::EventKind::OutputTextDelta { delta: chunk[..n].to_string() });
+        left -= n;
+    }
+    push(rip_kernel::EventKind::SessionEnded { reason: "completed".to_string() });
 }
 
 #[derive(Clone)]
@@ -314,7 +347,8 @@ fn run(case: &Case, _known: &KnownFindings) -> CaseReport {
             surface_compare(&rit, &case.params, point, "recovered", &mut rep);
         }
         // 3. continuation: further appends continue the numbering
-        let before_len = values.len();
+        append_noise_session(&rit.live.log, case.noise_kb, si);
+        let before_len = values.len() + if case.noise_kb == 0 { 0 } else { 2 + (case.noise_kb as usize).div_ceil(32) };
         let mut cont_acked: Vec<String> = Vec::new();
         for op in &case.cont {
             if let Ok(r) = rv::engine::runner::catch(|| rit.apply(op)) {
@@ -358,6 +392,11 @@ fn run(case: &Case, _known: &KnownFindings) -> CaseReport {
         rep.class(format!("point:{p}"));
     }
     rep.count("crash_points_strictly_inside_an_op", inside);
+    rep.class(match case.noise_kb {
+        0 => "noise_before_continuation:none",
+        1..=999 => "noise_before_continuation:<1MiB",
+        _ => "noise_before_continuation:>1MiB",
+    });
     rep.nontrivial = inside > 0;
     rep
 }
@@ -379,7 +418,7 @@ fn main() {
         case_strategy,
         |c| run(c, &known),
     );
-    let n = check.cases(160, 3200);
+    let n = check.cases(96, 2400);
     check.group(
         "run_crash",
         "history = 1-5 steps through the REAL ROUTER on one thread: prompts answered by the stub or by a scripted provider (1-39 text deltas of up to 40 KB, so a run logs far more session frames than thread frames), write/bash tool envelopes (side-effects frame + automatic checkpoint), plain sessions, manual checkpoints, auto compaction jobs, cursor rotation, branch; every hook-named write boundary reached by any thread of the runtime is a crash point (images taken while another thread wrote are discarded and counted); images at session-frame log points are thinned by a generated stride, all others are evaluated: reopen + replay_validated + numbering over ALL streams + acknowledged messages / run frames / session end frames exactly once + artifacts + the C04 read surface, then a restarted router must accept a message on every thread the image knows, run it to the end and leave a log that replays with correct numbering. non-trivial = at least one evaluated image strictly inside a step; distinct by case hash",
